@@ -128,8 +128,12 @@ struct Compiler {
     upvalues: Vec<Upvalue>,
     scope_depth: usize,
     lambda_count: usize,
-    in_try_block: bool,
+    /// For each try body or catch block being compiled, innermost last: the number of locals
+    /// declared when its try statement was entered.
+    try_stack: Vec<usize>,
     loop_stack: Vec<(usize, usize)>,
+    /// For each loop, the length of `try_stack` when the loop was entered.
+    loop_try_depth: Vec<usize>,
     break_stack: Vec<Vec<usize>>,
 }
 
@@ -163,8 +167,9 @@ impl Compiler {
             upvalues: Vec::new(),
             scope_depth: 0,
             lambda_count: 0,
-            in_try_block: false,
+            try_stack: Vec::new(),
             loop_stack: Vec::new(),
+            loop_try_depth: Vec::new(),
             break_stack: Vec::new(),
         }
     }
@@ -250,6 +255,7 @@ impl Compiler {
     fn push_loop(&mut self) {
         let loop_start = self.chunk.code.len();
         self.loop_stack.push((loop_start, self.scope_depth));
+        self.loop_try_depth.push(self.try_stack.len());
         self.break_stack.push(Vec::new());
     }
 
@@ -264,6 +270,7 @@ impl Compiler {
 
     fn pop_loop(&mut self) -> Result<(), CompilerError> {
         self.loop_stack.pop();
+        self.loop_try_depth.pop();
         let break_points = self.break_stack.pop().expect("Expected Vec.");
 
         for &bp in &break_points {
@@ -885,11 +892,34 @@ impl<'a> Parser<'a> {
             }
             self.expression();
             self.consume(TokenKind::SemiColon, "Expected ';' after return value.");
-            if self.compiler().in_try_block {
-                self.emit_byte(OpCode::JumpFinally as u8);
-            }
+            self.emit_jump_finally_chain();
             self.emit_byte(OpCode::Return as u8);
         }
+    }
+
+    /// A `return` passes through the finally block of every try statement it leaves, innermost
+    /// first; the value travels with it.
+    fn emit_jump_finally_chain(&mut self) {
+        for _ in 0..self.compiler().try_stack.len() {
+            self.emit_byte(OpCode::JumpFinally as u8);
+        }
+    }
+
+    /// `break` and `continue` pass through the finally block of every try statement of the loop
+    /// body that they leave. Returns the number of locals that are left to be popped afterwards
+    /// (entering a finally block discards what its try statement had declared).
+    fn emit_jump_finally_chain_for_loop_exit(&mut self) -> Option<usize> {
+        let loop_try_depth = *self.compiler().loop_try_depth.last()?;
+        let left = self.compiler().try_stack.len() - loop_try_depth;
+        if left == 0 {
+            return None;
+        }
+        for _ in 0..left {
+            self.emit_byte(OpCode::Nil as u8);
+            self.emit_byte(OpCode::JumpFinally as u8);
+            self.emit_byte(OpCode::Pop as u8);
+        }
+        Some(self.compiler().try_stack[loop_try_depth])
     }
 
     fn break_statement(&mut self) {
@@ -900,7 +930,8 @@ impl<'a> Parser<'a> {
                 return;
             }
         };
-        self.emit_scope_end(false, scope_depth);
+        let remaining_locals = self.emit_jump_finally_chain_for_loop_exit();
+        self.emit_scope_end_up_to(scope_depth, remaining_locals);
         let break_pos = self.emit_jump(OpCode::Jump);
         match self.compiler_mut().push_break(break_pos) {
             Ok(_) => {}
@@ -920,7 +951,8 @@ impl<'a> Parser<'a> {
                 return;
             }
         };
-        self.emit_scope_end(false, scope_depth);
+        let remaining_locals = self.emit_jump_finally_chain_for_loop_exit();
+        self.emit_scope_end_up_to(scope_depth, remaining_locals);
         self.emit_loop(jump_target);
         self.consume(TokenKind::SemiColon, "Expected ';' after 'continue'.");
     }
@@ -932,8 +964,8 @@ impl<'a> Parser<'a> {
     }
 
     fn try_statement(&mut self) {
-        let prev_in_try_block = self.compiler().in_try_block;
-        self.compiler_mut().in_try_block = true;
+        let local_count = self.compiler().locals.len();
+        self.compiler_mut().try_stack.push(local_count);
 
         self.emit_byte(OpCode::PushExcHandler as u8);
         let handler_catch_arg_pos = self.chunk().code.len();
@@ -946,7 +978,7 @@ impl<'a> Parser<'a> {
         self.begin_scope();
         self.block();
         self.end_scope();
-        self.compiler_mut().in_try_block = prev_in_try_block;
+        self.compiler_mut().try_stack.pop();
 
         self.emit_byte(OpCode::PopExcHandler as u8);
         let catch_jump_pos = self.emit_jump(OpCode::Jump);
@@ -969,9 +1001,9 @@ impl<'a> Parser<'a> {
 
             // While the catch block runs, a handler installed on its entry routes every exit from it
             // through the statement's finally block.
-            self.compiler_mut().in_try_block = true;
+            self.compiler_mut().try_stack.push(local_count);
             self.block();
-            self.compiler_mut().in_try_block = prev_in_try_block;
+            self.compiler_mut().try_stack.pop();
             self.end_scope();
             self.emit_byte(OpCode::PopExcHandler as u8);
         }
@@ -1158,9 +1190,7 @@ impl<'a> Parser<'a> {
         } else {
             self.emit_byte(OpCode::Nil as u8);
         }
-        if self.compiler().in_try_block {
-            self.emit_byte(OpCode::JumpFinally as u8);
-        }
+        self.emit_jump_finally_chain();
         self.emit_byte(OpCode::Return as u8);
     }
 
@@ -1182,6 +1212,26 @@ impl<'a> Parser<'a> {
             if pop_locals {
                 self.compiler_mut().locals.pop();
             }
+        }
+    }
+
+    /// Like `emit_scope_end(false, ..)`, for the first `local_count` locals only (all if `None`).
+    fn emit_scope_end_up_to(&mut self, scope_depth: usize, local_count: Option<usize>) {
+        let count = local_count.unwrap_or(self.compiler().locals.len());
+        let mut opcodes = Vec::new();
+        for local in self.compiler().locals[..count].iter().rev() {
+            if local.depth.unwrap() <= scope_depth {
+                break;
+            }
+            let opcode = if local.is_captured {
+                OpCode::CloseUpvalue
+            } else {
+                OpCode::Pop
+            };
+            opcodes.push(opcode as u8);
+        }
+        for &opcode in &opcodes {
+            self.emit_byte(opcode);
         }
     }
 
